@@ -30,6 +30,14 @@ BoundBlocks == { <<d>> : d \in LowerDirs \cup UpperDirs \cup BothDirs }
 NextBoundBlocks == \E sc \in BoundBlocks, int \in BOOLEAN :
    vec' = Ev(Model("absent", FALSE, <<>>, BaseRows, << Col("X", int, <<R(1)>>, << <<1, R(1)>> >>, sc), BaseCols[2] >>),
              [two |-> FALSE, comments |-> FALSE, blank |-> FALSE], "none", "raw", FALSE)
+\* a column that is declared through explicit zero entries only (the usual way a writer lists an unused column): it is a
+\* variable of the problem, with its marker kind and bounds
+NextZeroColumns == \E int \in BOOLEAN, lay \in Lay, sc \in { <<>>, << Bd("UP", <<R(4)>>) >>, << Bd("LO", <<R(-3)>>), Bd("UP", <<R(-1)>>) >> },
+                      shape \in {"obj", "row", "both"} :
+   vec' = Ev(Model("absent", FALSE, <<>>, BaseRows,
+                   << BaseCols[1],
+                      Col("Z", int, IF shape = "row" THEN <<>> ELSE <<Zero>>, IF shape = "obj" THEN <<>> ELSE << <<1, Zero>>, <<2, Zero>> >>, sc),
+                      BaseCols[2] >>), lay, "none", "raw", FALSE)
 NextRows == \E ty \in {"E", "L", "G"}, rhs \in {<<>>, <<R(3)>>, <<R(-2)>>}, rng \in {<<>>, <<R(2)>>, <<R(-2)>>, << <<1,2>> >>},
                orhs \in {<<>>, <<R(5)>>, <<R(-1)>>}, lay \in [two : BOOLEAN, comments : {FALSE}, blank : {FALSE}] :
    vec' = Ev(Model("absent", FALSE, orhs, << Row("R1", ty, rhs, rng), BaseRows[2] >>, BaseCols), lay, "none", "raw", FALSE)
@@ -50,7 +58,7 @@ Models == IF "MODELS" \in DOMAIN IOEnv THEN ndJsonDeserialize(IOEnv.MODELS) ELSE
 NextRandom == \E k \in DOMAIN Models : vec' = Ev(Models[k].model, Models[k].layout, "none", Models[k].via, FALSE)
 Step(A) == phase = 0 /\ phase' = 1 /\ A
 Init == vec = <<>> /\ phase = 0
-Next == Step(NextBounds \/ NextBoundBlocks \/ NextRows \/ NextSense \/ NextNames \/ NextFaults)
+Next == Step(NextBounds \/ NextBoundBlocks \/ NextZeroColumns \/ NextRows \/ NextSense \/ NextNames \/ NextFaults)
 NextR == Step(NextRandom)
 Emit == phase = 1 => PrintT("VEC " \o ToJson(vec))
 =============================================================================
